@@ -17,6 +17,8 @@ import traceback
 from pv import tlc
 
 HOME = os.environ.get('VERIF_HOME', '/verif')
+# evidence / replays go under VERIF_OUT when set (used by tools/seed_eval.py --scratch so that seeded runs never touch the committed evidence)
+OUT = os.environ.get('VERIF_OUT', HOME)
 
 
 class Ctx:
@@ -88,8 +90,8 @@ class Ctx:
           print('KNOWN-FINDING: property=%s %s' % (self.prop, kf['what']), flush=True)
         return False
     h = hashlib.sha1(json.dumps([clause, sid, detail], sort_keys=True, default=str).encode()).hexdigest()[:12]
-    os.makedirs(os.path.join(HOME, 'replays'), exist_ok=True)
-    path = os.path.join(HOME, 'replays', '%s-%s.json' % (self.prop, h))
+    os.makedirs(os.path.join(OUT, 'replays'), exist_ok=True)
+    path = os.path.join(OUT, 'replays', '%s-%s.json' % (self.prop, h))
     v['scenario'] = scenario
     v['seed'] = self.seed
     v['tier'] = self.tier
@@ -173,8 +175,8 @@ def write_evidence(ctx, extra_cov=None):
       'wall_s': round(time.time() - ctx.t0, 2),
       'violations': len(ctx.violations),
   }
-  os.makedirs(os.path.join(HOME, 'evidence'), exist_ok=True)
-  path = os.path.join(HOME, 'evidence', '%s.json' % ctx.prop)
+  os.makedirs(os.path.join(OUT, 'evidence'), exist_ok=True)
+  path = os.path.join(OUT, 'evidence', '%s.json' % ctx.prop)
   tmp = path + '.tmp'
   with open(tmp, 'w') as f:
     json.dump(ev, f, indent=1, default=str)
@@ -195,7 +197,7 @@ def main(argv=None):
   ctx = Ctx(prop, args.tier, seed)
   if not args.replay:
     import glob
-    for old in glob.glob(os.path.join(HOME, 'replays', '%s-*.json' % prop)):
+    for old in glob.glob(os.path.join(OUT, 'replays', '%s-*.json' % prop)):
       os.unlink(old)
   try:
     drv = importlib.import_module('pv.drive_%s' % prop)
